@@ -301,11 +301,12 @@ def upper_bound(b, op, at, F_local, depth=0, seen=None):
     if r is None or depth > 8:
         return INF
     l = r[0]
+    key = (l, tuple(e[:2] for e in flow.fields_only(r[1])))
     if l == F_local and not flow.fields_only(r[1]):
         return 0
-    if (l, at) in seen:
+    if (key, at) in seen:
         return INF
-    seen = seen | {(l, at)}
+    seen = seen | {(key, at)}
     best = INF
     # dominating comparisons involving this value and F
     for x in guards.dominating_facts(b, at):
@@ -318,28 +319,33 @@ def upper_bound(b, op, at, F_local, depth=0, seen=None):
             r0, r1 = flow.resolve_place(b, o0), flow.resolve_place(b, o1)
             if r0 is None or r1 is None:
                 continue
+            k0 = (r0[0], tuple(e[:2] for e in flow.fields_only(r0[1])))
+            k1_ = (r1[0], tuple(e[:2] for e in flow.fields_only(r1[1])))
             opk, val = x[1], x[2]
             # normalise to  lhs REL rhs holding
             rel = {("Lt", True): "<", ("Lt", False): ">=", ("Le", True): "<=", ("Le", False): ">", ("Gt", True): ">", ("Gt", False): "<=",
                    ("Ge", True): ">=", ("Ge", False): "<"}.get((opk, val))
             if rel is None:
                 continue
-            if r0[0] == l and not flow.fields_only(r0[1]) == flow.fields_only(()) or r0[0] == l:
+            if k0 == key:
                 ub_r = upper_bound(b, o1, x[3], F_local, depth + 1, seen)
                 if ub_r < INF:
                     if rel == "<":
                         best = min(best, ub_r - 1)
                     elif rel == "<=":
                         best = min(best, ub_r)
-            if r1[0] == l:
+            if k1_ == key:
                 ub_l = upper_bound(b, o0, x[3], F_local, depth + 1, seen)
                 if ub_l < INF:
                     if rel == ">":
                         best = min(best, ub_l - 1)
                     elif rel == ">=":
                         best = min(best, ub_l)
-    # definitions
+    # definitions (of a plain local; for `_t.0` of a checked-arithmetic temporary, of the temporary)
+    fo = flow.fields_only(r[1])
     defs = [d for d in b.defs().get(l, []) if d["kind"] != "mutarg" and not d.get("proj")]
+    if fo and not (len(fo) == 1 and fo[0][1] == 0 and all(d["kind"] == "assign" and d["rv"]["k"] == "bin" for d in defs)):
+        defs = []
     if defs:
         worst = -INF
         for df in defs:
